@@ -172,13 +172,26 @@ CLAIMED['C12'] = {
           '"after running another backend in the same process".',
   'design': '7.3 (C12)',
 }
+CLAIMED['C02'] = {
+  'text': 'Faithful, closed image, partly proved: the by-name tables of a namespace are proved (z3) to be the tables of its listings '
+          '(ApiNamespace.add_route, add_data_type, add_alias) and ApiNamespace.normalize to leave every listing sorted by its key and a '
+          'permutation of what it was. That the passes of ir_generator.py build a description faithful to the declarations is NOT proved: '
+          'random API models (1-3 namespaces with imports, aliases and alias chains through lists / maps, structs with inheritance, open and '
+          'closed unions with inheritance, primitive types with parameters, List / Map / Nullable nesting <= 3, defaults, docs, routes with '
+          'versions, deprecation and attributes) are rendered to text with the definitions of each namespace in shuffled order, compiled, and '
+          'the description is compared with the model field by field: exactly the declared names (alphabetical listings, by-name tables), field '
+          'order / types / type arguments / nullability / defaults / docs, the implicit `other` of open unions, schema defaults of unspecified '
+          'route attributes, inherited-and-required-first field listings, linearizations with parents and alias targets first -- a BOUNDED '
+          'stand-in.',
+  'note': 'Found and fixed: linearize_aliases ignored alias targets inside lists / maps / nullables (generated python raised NameError on '
+          'import; F-C02-1). Not covered: examples, annotations and patches in the model; the text-level mutators of C03.',
+  'design': '7.3 (C02)',
+}
 NOT_YET = {
  'C01': 'not decided by this technique in this revision: acceptance <=> language rules is a property of the whole frontend (ply lexer / LALR tables, '
         'the parser actions and the ten resolution passes of ir_generator.py, ~2000 lines over mutable AST/IR graphs), which is outside the Python '
         'subset the VC generator handles; only the literal-check layer of the IR primitive types is under contract (proved, tagged C01/C03/C10 in '
         'contracts/ir_types.py) and one layer does not decide the property',
- 'C02': 'not decided: a whole-pipeline property (AST -> IR faithfulness across all passes). Proved pieces exist (ApiNamespace.add_route keeps the by-name '
-        'tables equal to the route list) but the passes that build the description are outside the VC generator; not claimed on that basis',
 }
 NA = {
  'C09': 'property of emitted Python source when imported; no contract on an emitting function can express the semantics of its output text',
